@@ -32,6 +32,7 @@ class LiaSolver:
         self.stats = {'sat': 0, 'unsat': 0, 'unknown': 0, 'solver_s': 0.0}
         self.memo = {}          # term id -> (expr, lo, hi, sideconstraints)
         self.mddmemo = {}
+        self.prodmemo = {}
         self.last_model = None
 
     # ------------------------------------------------------------------
@@ -124,13 +125,21 @@ class LiaSolver:
             if op == 'add':
                 return self._wrap(x + y, xl + yl, xh + yh, w, xs + ys)
             return self._wrap(x - y, xl - yh, xh - yl, w, xs + ys)
-        if op == 'mul':
+        if op == 'mul' or op == 'mulhi':
             (x, xl, xh, xs), (y, yl, yh, ys) = A[0], A[1]
             cands = [xl * yl, xl * yh, xh * yl, xh * yh]
-            return self._wrap(x * y, min(cands), max(cands), w, xs + ys)
-        if op == 'mulhi':
-            (x, xl, xh, xs), (y, yl, yh, ys) = A[0], A[1]
-            (q, ql, qh), _, side = self._divpow2(x * y, xl * yl, xh * yh, w, xs + ys)
+            lo, hi = min(cands), max(cands)
+            if op == 'mul' and lo >= 0 and hi < (1 << w):
+                return (x * y, lo, hi, xs + ys)
+            # one shared quotient/remainder pair per product (mul takes r, mulhi takes q)
+            key = (a[0].id if a[0].__class__ is Term else ('c', a[0]), a[1].id if a[1].__class__ is Term else ('c', a[1]), w)
+            ent = self.prodmemo.get(key)
+            if ent is None:
+                (q, ql, qh), (r, rl, rh), side = self._divpow2(x * y, lo, hi, w, xs + ys)
+                ent = self.prodmemo[key] = ((q, ql, qh), (r, rl, rh), side)
+            (q, ql, qh), (r, rl, rh), side = ent
+            if op == 'mul':
+                return (r, rl, rh, side)
             return (q, ql, qh, side)
         if op == 'neg':
             (x, xl, xh, xs) = A[0]
@@ -204,6 +213,10 @@ class LiaSolver:
             tx, ty = self._tz(a[0]), self._tz(a[1])
             if xh < (1 << ty) or yh < (1 << tx):
                 return (x + y, xl + yl, xh + yh, xs + ys)
+            if op == 'xor' and xh <= 1 and yh <= 1:
+                return (z3.If(x == y, 0, 1), 0, 1, xs + ys)
+            if op == 'or' and xh <= 1 and yh <= 1:
+                return (z3.If(z3.And(x == 0, y == 0), 0, 1), 0, 1, xs + ys)
             raise LiaUnsupported('%s of overlapping values' % op)
         if op in ('eq', 'ne'):
             (x, xl, xh, xs), (y, yl, yh, ys) = A[0], A[1]
@@ -318,8 +331,8 @@ class LiaSolver:
         return z3.Not(f) if neg else f
 
     # ------------------------------------------------------------------
-    def check(self, pc, extras=(), conds=()):
-        fs = []
+    def check(self, pc, extras=(), conds=(), raw=()):
+        fs = list(raw)
         if pc is None:
             return 'unsat'
         if pc is not TRUE:
